@@ -246,9 +246,9 @@ Definition env_of_names (names : list name) : cenv :=
 (* decompile the REAL bytes of  `E;`  or  `{ var a = lit; ...; E; }`  (k = number of locals):
    strip the k initialisers in front and  Pop, k Pops, Nil, Return  behind *)
 Definition c05_decomp (names : string) (codehex : string) (consts : string) : string :=
-  let ns := map (fun g => bytes_of_Ns g) (parse_nss names) in
+  let ns := map (fun g => bytes_of_Ns g) (filter (fun g => match g with [] => false | _ => true end) (parse_nss names)) in
   let k := List.length ns in
-  let tbl := map const_of_group (parse_nss consts) in
+  let tbl := map const_of_group (filter (fun g => match g with [] => false | _ => true end) (parse_nss consts)) in
   match disasm (Ns_of_bytes (bytes_of_hex codehex)) tbl with
   | None => "DISASM"
   | Some code =>
